@@ -579,6 +579,72 @@ func (c *Ctx) revisionChoice() {
 	c.Floor("C08.3-create-sites", nCreate, 1)
 	c.Floor("C08.3-rollback-sites", nUpdate, 1)
 	c.updateRevisionSources(fi, fn, an, cr, ur, revs)
+	// a revision the controller records is found again by its own listing: the listing selects by the set's selector, the
+	// one thing validated to match that selector is the pod template's labels, so these are the labels a new revision
+	// gets (a revision labelled otherwise is invisible to the next reconcile, which then records the same template again)
+	if nr != nil {
+		ninfo := nr.Pkg.TypesInfo
+		nfn := c.E.FnOf(nr)
+		sets := paramsOfType(nr, load.APIPkg, "StatefulSet")
+		nC := 0
+		for _, bd := range nfn.Bodies() {
+			for _, call := range callsIn(bd, false) {
+				f := gf.StaticCallee(ninfo, call)
+				if f == nil || f.Name() != "NewControllerRevision" || f.Pkg() == nil || f.Pkg().Path() != load.K8sPkg {
+					continue
+				}
+				nC++
+				ok := false
+				// the labels parameter of the constructor, by type and name position: the one map[string]string argument
+				for k := 0; k < len(call.Args); k++ {
+					if types.TypeString(ninfo.TypeOf(call.Args[k]), nil) != "map[string]string" || len(sets) != 1 {
+						continue
+					}
+					want := c.TryWantTerm(nfn, call.Pos(), "$1.Spec.Template.Labels", sets[0])
+					ok = want != nil && nfn.Term(call.Args[k]).Key() == want.Key()
+				}
+				c.Check(ok, "C08.1-new-revision-carries-template-labels", nr.Obj.Name()+": labels of the new revision", call.Pos(), "the pod template's labels (which the selector is validated to match)",
+					"a new revision is not labelled with the pod template's labels: the selector-based listing may never return it, and the same template is recorded again on every reconcile")
+			}
+		}
+		c.Floor("C08.1-revision-constructor-calls", nC, 1)
+	}
+	// the renumbering write carries the new number on every attempt: at each Update of a ControllerRevision in the
+	// renumber helper (its retry closure included), the object sent has Revision == the number asked for. (Set once
+	// outside the closure, a retry after a conflict would send the refreshed copy with its old number.)
+	{
+		uinfo := ur.Pkg.TypesInfo
+		var num *ast.Ident
+		for _, pf := range ur.Decl.Type.Params.List {
+			for _, pn := range pf.Names {
+				if b, ok := uinfo.TypeOf(pn).Underlying().(*types.Basic); ok && b.Kind() == types.Int64 {
+					num = pn
+				}
+			}
+		}
+		nW := 0
+		for _, s := range c.G.Sites {
+			if s.Fn != ur.Obj || s.Resource != "controllerrevisions" || s.Verb != "Update" || len(s.Call.Args) < 2 {
+				continue
+			}
+			nW++
+			name := ur.Obj.Name() + ": ControllerRevisions.Update"
+			if num == nil {
+				c.Unk("C08.3-renumber-write-carries-the-number", name, s.Call.Pos(), "the renumber helper has no int64 parameter")
+				continue
+			}
+			var sfn *gf.Fn
+			var san *gf.Analysis
+			if s.InLit != nil {
+				sfn, san = c.LitAnalysis(uinfo, s.InLit, ur.Obj.Name()+"$lit")
+			} else {
+				sfn, san = c.Analysis(ur)
+			}
+			want := c.Want(sfn, s.Call.Pos(), "$1.Revision == $2", s.Call.Args[1], num)
+			c.Implies(san.StateAtExpr(s.Call), want, "C08.3-renumber-write-carries-the-number", name, s.Call.Pos())
+		}
+		c.Floor("C08.3-renumber-writes", nW, 1)
+	}
 	// unchanged template: some path assigns the update revision without any write
 	for _, s := range c.G.Sites {
 		if s.Fn == fi.Obj && s.Class == "write" {
@@ -705,19 +771,24 @@ func (c *Ctx) createLoop() {
 func (c *Ctx) updateRevisionSources(fi *load.FuncInfo, fn *gf.Fn, an *gf.Analysis, cr, ur *load.FuncInfo, revs *ast.Ident) {
 	info := fi.Pkg.TypesInfo
 	var final *ast.ReturnStmt
-	ast.Inspect(fi.Decl.Body, func(n ast.Node) bool {
-		if ret, ok := n.(*ast.ReturnStmt); ok && len(ret.Results) == 4 {
-			if _, isID := ret.Results[1].(*ast.Ident); isID && !isNilExpr(info, ret.Results[1]) {
-				final = ret
+	var updE ast.Expr
+	if shape := c.chooser(); shape != nil {
+		ast.Inspect(fi.Decl.Body, func(n ast.Node) bool {
+			if ret, ok := n.(*ast.ReturnStmt); ok {
+				if _, u := shape.results(info, ret); u != nil {
+					if _, isID := ast.Unparen(u).(*ast.Ident); isID {
+						final, updE = ret, ast.Unparen(u)
+					}
+				}
 			}
-		}
-		return true
-	})
+			return true
+		})
+	}
 	if final == nil {
 		c.Fail("getStatefulSetRevisions: final return not found")
 		return
 	}
-	upd := info.ObjectOf(final.Results[1].(*ast.Ident))
+	upd := info.ObjectOf(updE.(*ast.Ident))
 	st := an.StateBefore(final)
 	newest := c.WantTerm(fn, final.Pos(), "$1[len($1)-1]", revs)
 	n := 0
